@@ -278,7 +278,8 @@ def run_check(prop, tier, runs_override=None):
     coverage = {
         'evaluations': nruns,
         'distinct_nontrivial': len(agg.nontrivial_states),
-        'rule': engine.RULE[prop],
+        'rule': engine.RULE[prop] + getattr(engine, 'RULE_MORE', {}).get(
+            prop, ''),
         'samples': samples[:6],
         'exhaustive': False,
         'enumerated_runs': n_enum,
@@ -296,8 +297,13 @@ def run_check(prop, tier, runs_override=None):
         'simulated_time': 'n/a: picotool has no clock, timer or scheduler; '
                           'logical steps (operations, stream writes, traced '
                           'line events) are counted instead',
-        'interleavings': 'n/a: single-threaded synchronous code; the search '
-                         'is over operation/fault sequences and environments',
+        'interleavings': ('two lexers stepped alternately at chunk '
+                          'boundaries (the only concurrency picotool has: '
+                          'lazily expanded includes); otherwise n/a'
+                          if prop == 'C07' else
+                          'n/a: single-threaded synchronous code; the search '
+                          'is over operation/fault sequences, environments '
+                          'and interpreter configurations'),
         'components': COMPONENTS,
         'determinism': det,
         'optimized_interpreter_slice': opt,
